@@ -261,3 +261,126 @@ Proof.
   - intros [key [Hne [Hin [Hp ->]]]]. exists key. split; [exact Hne|].
     apply (check_trie_sound a fuel ks H) in Hin. split; [exact (proj2 Hin)|]. split; [exact Hp|reflexivity].
 Qed.
+
+(* ---------- in-bounds: on a certified array the unchecked reads of the traversal never leave the array ---------- *)
+Definition alen (a : list N) : N := N.of_nat (length a).
+
+Lemma get_opt_get a p : p < alen a -> get_opt a p = Some (get a p).
+Proof. unfold alen, get_opt, get. intros H. apply nth_error_nth'. lia. Qed.
+
+Lemma lxor_block pos k n : n mod 256 = 0 -> pos < n -> k < 256 -> N.lxor pos k < n.
+Proof.
+  intros Hn Hp Hk.
+  assert (Hq : N.lxor pos k / 256 = pos / 256).
+  { change 256 with (2 ^ 8). rewrite <- !N.shiftr_div_pow2. rewrite N.shiftr_lxor.
+    rewrite (N.shiftr_div_pow2 k). rewrite (N.div_small k) by (change (2 ^ 8) with 256; lia).
+    apply N.lxor_0_r. }
+  pose proof (N.div_mod (N.lxor pos k) 256 ltac:(lia)) as E1.
+  pose proof (N.mod_lt (N.lxor pos k) 256 ltac:(lia)) as B1.
+  pose proof (N.div_mod pos 256 ltac:(lia)) as E2.
+  pose proof (N.div_mod n 256 ltac:(lia)) as E3.
+  rewrite Hq in E1. rewrite Hn in E3.
+  remember (N.lxor pos k) as q. remember (pos / 256) as a. remember (n / 256) as b.
+  remember (q mod 256) as r1. remember (pos mod 256) as r2.
+  assert (a < b) by lia. lia.
+Qed.
+
+(* every node reachable from pos over byte keys lies inside the array *)
+Definition invp (a : list N) (pos : N) : Prop :=
+  forall key st', bytes key -> walk a (pos, false) key = Some st' -> fst st' < alen a.
+
+Lemma invp_here a pos : invp a pos -> pos < alen a.
+Proof. intros H. exact (H [] (pos, false) (Forall_nil _) eq_refl). Qed.
+
+Lemma invp_step a pos k p' leaf : invp a pos -> k < 256 -> step a pos k = Some (p', leaf) -> invp a p'.
+Proof.
+  intros H Hk Hs key st' Hb Hw. destruct key as [|k' t].
+  - cbn in Hw. injection Hw as <-. cbn [fst].
+    apply (H [k] (p', leaf)); [constructor; [exact Hk|constructor]|]. cbn [walk fst]. rewrite Hs. reflexivity.
+  - apply (H (k :: k' :: t) st'); [constructor; assumption|].
+    cbn [walk fst] in *. rewrite Hs. cbn [fst]. exact Hw.
+Qed.
+
+Lemma keys_from_invp a : forall fuel st rk ks,
+  keys_from fuel a st rk = Some ks ->
+  forall key st', bytes key -> walk a st key = Some st' -> fst st' < alen a.
+Proof.
+  induction fuel as [|f IH]; intros st rk ks H; [discriminate|].
+  cbn [keys_from] in H.
+  destruct (fst st <? N.of_nat (length a)) eqn:Hb; [|discriminate].
+  match type of H with match concat_opt ?l with _ => _ end = _ => destruct (concat_opt l) as [r|] eqn:Hc; [|discriminate] end.
+  destruct (concat_opt_spec _ _ Hc) as [Hall _].
+  intros key st' Hk Hw. destruct key as [|k t].
+  - cbn in Hw. injection Hw as <-. unfold alen. lia.
+  - cbn [walk] in Hw. destruct (step a (fst st) k) as [st1|] eqn:Hs; [|discriminate].
+    inversion Hk as [|k' t' Hk1 Hk2]; subst.
+    assert (Hel : In (keys_from f a st1 (k :: rk))
+                     (map (fun k0 => match step a (fst st) k0 with
+                                     | None => Some []
+                                     | Some st'0 => keys_from f a st'0 (k0 :: rk)
+                                     end) all_bytes)).
+    { apply in_map_iff. exists k. rewrite Hs. split; [reflexivity|apply all_bytes_in; exact Hk1]. }
+    destruct (Hall _ Hel) as [y Hy]. exact (IH st1 (k :: rk) y Hy t st' Hk2 Hw).
+Qed.
+
+Section InBounds.
+Variable a : list N.
+Hypothesis Hblock : alen a mod 256 = 0.
+
+Lemma step_opt_agree pos k : pos < alen a -> k < 256 -> step_opt a pos k = Some (step a pos k).
+Proof.
+  intros Hp Hk. unfold step_opt, step. destruct (TB.nul_stops && (k =? 0)); [reflexivity|].
+  rewrite (get_opt_get a (N.lxor pos k)) by (apply lxor_block; assumption). reflexivity.
+Qed.
+
+Lemma next_opt_agree : forall rest pos i, bytes rest -> invp a pos -> next_opt a pos rest i = Some (next a pos rest i).
+Proof.
+  induction rest as [|k rest IH]; intros pos i Hb Hi; [reflexivity|].
+  inversion Hb as [|k' t' Hk Hb']; subst. cbn [next_opt next].
+  rewrite (step_opt_agree pos k (invp_here a pos Hi) Hk).
+  destruct (step a pos k) as [[p' leaf]|] eqn:Hs; [|reflexivity].
+  pose proof (invp_step a pos k p' leaf Hi Hk Hs) as Hi'.
+  destruct leaf.
+  - rewrite (get_opt_get a p' (invp_here a p' Hi')). reflexivity.
+  - apply IH; assumption.
+Qed.
+
+Lemma next_state_inv : forall rest pos i e p' rest' i',
+  bytes rest -> invp a pos -> next a pos rest i = Some (e, (p', rest', i')) -> invp a p' /\ bytes rest'.
+Proof.
+  induction rest as [|k rest IH]; intros pos i e p' rest' i' Hb Hi Hn; [discriminate|].
+  inversion Hb as [|k' t' Hk Hb']; subst. cbn [next] in Hn.
+  destruct (step a pos k) as [[p1 leaf]|] eqn:Hs; [|discriminate].
+  pose proof (invp_step a pos k p1 leaf Hi Hk Hs) as Hi'.
+  destruct leaf.
+  - injection Hn as _ <- <- _. split; assumption.
+  - exact (IH p1 (i + 1) e p' rest' i' Hb' Hi' Hn).
+Qed.
+
+Lemma drain_opt_agree : forall fuel pos rest i, bytes rest -> invp a pos ->
+  drain_opt fuel a pos rest i = Some (drain fuel a pos rest i).
+Proof.
+  induction fuel as [|f IH]; intros pos rest i Hb Hi; [reflexivity|].
+  cbn [drain_opt drain]. rewrite (next_opt_agree rest pos i Hb Hi).
+  destruct (next a pos rest i) as [[e [[p' rest'] i']]|] eqn:Hn; [|reflexivity].
+  destruct (next_state_inv rest pos i e p' rest' i' Hb Hi Hn) as [Hi' Hb'].
+  rewrite (IH p' rest' i' Hb' Hi'). reflexivity.
+Qed.
+End InBounds.
+
+(* the certificate also establishes that the faithful, bounds-checked traversal never fails and equals the totalised one:
+   the argument of every unchecked read is inside the array, for every byte text and offset *)
+Lemma traverse_in_bounds : forall a fuel ks text off,
+  keys_of a fuel = Some ks -> bytes text -> traverse_opt a text off = Some (traverse a text off).
+Proof.
+  intros a fuel ks text off H Hb. unfold keys_of in H.
+  destruct ((0 <? N.of_nat (length a)) && (N.of_nat (length a) mod 256 =? 0)) eqn:Hc; [|discriminate].
+  assert (H0 : 0 < alen a) by (unfold alen; lia).
+  assert (Hm : alen a mod 256 = 0) by (unfold alen; lia).
+  unfold traverse_opt, traverse, root. change TB.ROOT_INDEX with 0.
+  rewrite (get_opt_get a 0 H0).
+  apply drain_opt_agree; [exact Hm| |].
+  - unfold bytes in *. rewrite Forall_forall in *. intros x Hx. apply Hb.
+    rewrite <- (firstn_skipn off text). apply in_or_app. right. exact Hx.
+  - intros key st' Hk Hw. exact (keys_from_invp a fuel _ _ _ H key st' Hk Hw).
+Qed.
